@@ -76,3 +76,38 @@ Fixpoint outer (shortcut : bool) (fuel : nat) (A : list bar) : option (list (lis
 Definition sweep (shortcut : bool) (bars : list bar) : option (list (list pt)) :=
   outer shortcut (S (length bars)) (sort_bars bars).
 
+
+(* ---- the glue around the sweep: PersLandscapeExact.__init__ (exact.py 124-125) selects
+   dgms[hom_deg]; compute_landscape (263-264) drops ONE trailing infinite bar. ---- *)
+Definition ebar := (Q * option Q)%type.          (* death None = +inf *)
+Inductive outcome :=
+| Ok (L : list (list pt))
+| ErrIndex            (* IndexError: hom_deg out of range, or (pinned code) A[-1] on an empty diagram *)
+| ErrNonFinite        (* an infinite bar that is not the trailing one: outside the property *)
+| ErrFuel.            (* never returned: see sweep_total in Properties/C03.v *)
+
+Definition is_inf (a : ebar) : bool := match snd a with None => true | Some _ => false end.
+Definition strip_trailing_inf (A : list ebar) : list ebar :=
+  match rev A with
+  | x :: r => if is_inf x then rev r else A
+  | [] => A
+  end.
+Fixpoint finite_bars (A : list ebar) : option (list bar) :=
+  match A with
+  | [] => Some []
+  | (b, Some d) :: r => match finite_bars r with Some l => Some ((b, d) :: l) | None => None end
+  | (_, None) :: _ => None
+  end.
+
+(* guard_empty = false is the pinned code (A[-1] raises IndexError on an empty diagram);
+   guard_empty = true is the intended behaviour (no bars: no depths). *)
+Definition exact_landscape (shortcut guard_empty : bool) (dgms : list (list ebar)) (h : nat) : outcome :=
+  match nth_error dgms h with
+  | None => ErrIndex
+  | Some [] => if guard_empty then Ok [] else ErrIndex
+  | Some dg =>
+      match finite_bars (strip_trailing_inf dg) with
+      | None => ErrNonFinite
+      | Some bars => match sweep shortcut bars with Some L => Ok L | None => ErrFuel end
+      end
+  end.
